@@ -764,7 +764,7 @@ package raft
 // record (header 1-3 bytes, or body shorter than announced) - except the header-only tail, see F5.
 //@ func decodeLogEntry
 //@   flags trusted
-//@   ensures tornTail ==> (err == nil || !iserr(err, ioEOF))
+//@   ensures tornTail ==> (err == nil || !iserr(err, io.EOF))
 
 //@ func persistentLog.AppendEntries
 //@   requires l.file != nil ==> logRI(l)
@@ -772,7 +772,7 @@ package raft
 //@   ensures [closed] old(l.file) == nil ==> err != nil && l.entries == old(l.entries)
 //@   ensures [appended] err == nil ==> len(l.entries) == old(len(l.entries)) + len(entries) && (forall k int :: 0 <= k && k < old(len(l.entries)) ==> l.entries[k] == old(l.entries[k])) && (forall j int :: 0 <= j && j < len(entries) ==> l.entries[old(len(l.entries)) + j] == entries[j])
 //@   ensures [error-frame] err != nil ==> l.entries == old(l.entries)
-//@   at call encodeLogEntry assert [offset-current] entry.Offset == fPos[l.file] && w == l.file
+//@   at call encodeLogEntry assert [offset-current] arg1.Offset == fPos[l.file] && arg0 == l.file
 //@   at before-assign l.entries assert [sync-before-publish] fSynced[l.file]
 
 //@ func persistentLog.AppendEntry
@@ -792,15 +792,16 @@ package raft
 //@   ensures [spec] err == nil ==> old(absContains(l, index)) && len(l.entries) == old(len(l.entries)) - (index - old(absFirst(l))) && forall k int :: 0 <= k && k < len(l.entries) ==> l.entries[k] == old(l.entries[k + (index - absFirst(l))])
 //@   ensures [missing] old(l.file) != nil && !old(absContains(l, index)) ==> err != nil
 //@   ensures [error-frame] err != nil ==> l.entries == old(l.entries)
-//@   at call encodeLogEntry assert [offset-current] entry.Offset == fPos[tmpFile] && w == tmpFile
+//@   at call encodeLogEntry assert [offset-current] arg1.Offset == fPos[tmpFile] && arg0 == tmpFile
 //@   loop range newEntries invariant [tmp] tmpFile != nil
 
 //@ func persistentLog.DiscardEntries
 //@   ensures [spec] err == nil ==> len(l.entries) == 1 && l.entries[0] != nil && l.entries[0].Index == index && l.entries[0].Term == term && l.entries[0].Offset == 0
 //@   ensures [error-frame] err != nil ==> l.entries == old(l.entries)
-//@   at call encodeLogEntry assert [offset-current] entry.Offset == fPos[tmpFile] && w == tmpFile
+//@   at call encodeLogEntry assert [offset-current] arg1.Offset == fPos[tmpFile] && arg0 == tmpFile
 
 //@ func persistentLog.rename
+//@   requires tmpFile != nil && l.file != nil
 //@   at call os.Rename assert [synced-closed-before-rename] fSynced[tmpFile] && fClosed[tmpFile] && fClosed[l.file]
 
 //@ func persistentLog.Replay
